@@ -37,6 +37,13 @@ def step (v : VC) (toks : List String) : VC × String :=
     | some l, some t => let v' := v.restart ⟨l, t⟩; (v', "ok " ++ digest v')
     | _, _ => (v, "bad-op")
   | ["clear"] => let v' := v.clear; (v', "ok " ++ digest v')
+  | ["approve", now, amt, d] =>
+    match nat? now, nat? amt with
+    | some now, some amt =>
+      match v.approve now amt (d == "1") with
+      | none => (v, "panic")
+      | some (v', ok, auto) => (v', (if ok then "true " else "false ") ++ (if auto then "auto " else "asked ") ++ digest v')
+    | _, _ => (v, "bad-op")
   | _ => (v, "bad-op")
 
 def model : Model := { σ := VC, init := VC.newWithIntervals 0 1 1, step := step }
